@@ -402,8 +402,61 @@ pub fn prepare_output(b: &Built, sc: &Scenario) {
     }
 }
 
+/// Server script that answers correctly but paces the body: mode 0 = one piece, 1 = pieces
+/// aligned to the stored chunk boundaries inside the requested range, 2 = small random
+/// pieces, 3 = first piece exactly one chunk then the rest.
+pub fn pacing_script(model: &crate::refimpl::model::Model, mode: u8, seed: u64) -> httpd::Script {
+    let mut bounds: Vec<(u64, u64)> = (0..model.parsed.dict.descs.len())
+        .map(|i| {
+            let (o, l) = model.desc_abs(i);
+            (o, o + l as u64)
+        })
+        .collect();
+    bounds.sort();
+    Arc::new(move |req, _f| {
+        let Some((a, b)) = req.range else { return httpd::Action::Full };
+        match mode {
+            0 => httpd::Action::Full,
+            1 | 3 => {
+                let mut sizes: Vec<usize> = Vec::new();
+                let mut pos = a;
+                for &(s, e) in &bounds {
+                    if e <= a || s > b {
+                        continue;
+                    }
+                    let end = e.min(b + 1);
+                    if end > pos {
+                        sizes.push((end - pos) as usize);
+                        pos = end;
+                    }
+                }
+                if pos <= b {
+                    sizes.push((b + 1 - pos) as usize);
+                }
+                if mode == 3 && sizes.len() > 1 {
+                    let first = sizes[0];
+                    sizes = vec![first, (b + 1 - a) as usize];
+                }
+                if sizes.is_empty() {
+                    httpd::Action::Full
+                } else {
+                    // Fragmented() cycles through the list; the last entry covers the rest.
+                    sizes.push(usize::MAX / 2);
+                    httpd::Action::Fragmented(sizes)
+                }
+            }
+            _ => {
+                let mut rng = Rng::new(seed ^ req.n);
+                httpd::Action::Fragmented((0..6).map(|_| rng.urange(1, 700)).collect())
+            }
+        }
+    })
+}
+
 #[derive(Default, Clone, Debug)]
 pub struct Faults {
+    /// How the (well-behaved) server paces its bodies, see `pacing_script`.
+    pub pacing: u8,
     pub fault: Option<String>,
     pub trunc_fault: Option<String>,
     pub rlimit_fsize: Option<u64>,
@@ -443,7 +496,7 @@ pub fn clone_spec(b: &Built, sc: &Scenario, archive: String) -> CloneSpec {
 /// Run the clone of a built scenario (output must have been prepared).
 pub fn run_clone(dir: &Path, b: &Built, sc: &Scenario, tag: &str, faults: &Faults) -> CloneObs {
     let server = if sc.http {
-        Some(Server::start(Arc::new(b.arch.bytes.clone()), httpd::well_behaved()))
+        Some(Server::start(Arc::new(b.arch.bytes.clone()), pacing_script(&b.arch.model, faults.pacing, sc.src_seed)))
     } else {
         None
     };
